@@ -2,6 +2,7 @@ package zh
 
 import (
 	"strconv"
+	"unicode/utf8"
 
 	zerr "github.com/DemoHn/Zn/pkg/error"
 	"github.com/DemoHn/Zn/pkg/syntax"
@@ -853,8 +854,11 @@ func unescapeBackTickSpecialStr(l *syntax.Lexer, srcLiteral []rune) []rune {
 				if state == sHexNum {
 					if hexCount >= 1 && hexCount <= 8 {
 						hexStr := string(literalBuffer[3 : len(literalBuffer)-1])
-						hexNum, _ := strconv.ParseInt(hexStr, 16, 32)
-						return append(srcLiteral, rune(hexNum))
+						// only a valid code point is a character; any other number stays as written
+						hexNum, err := strconv.ParseInt(hexStr, 16, 32)
+						if err == nil && utf8.ValidRune(rune(hexNum)) {
+							return append(srcLiteral, rune(hexNum))
+						}
 					}
 				}
 				goto UNDONE_end
